@@ -405,12 +405,19 @@ def gen_rung_systems(rng):
     depth = rng.randint(1, 4)
     nb = rng.randint(1, depth)
     levels = sorted(rng.sample(range(1, 30), depth))
+    nested = rng.random() < 0.5
     rss = []
     for off in range(nb):
         n = depth - off
         sizes = sorted(rng.sample(range(1, 9), n), reverse=True) if n <= 8 else list(range(n, 0, -1))
-        rss.append([(sizes[i], levels[off + i]) for i in range(n)])
-    return dict(kind="custom"), rss
+        if nested or off == 0:
+            lv = levels[off:]
+        else:
+            # a later bracket with rung levels of its own (only the largest one is shared): the constructor
+            # asks for increasing levels per bracket, not for levels taken from the first bracket
+            lv = sorted(rng.sample(range(1, levels[-1]), n - 1)) + [levels[-1]] if levels[-1] > n - 1 else levels[off:]
+        rss.append([(sizes[i], lv[i]) for i in range(n)])
+    return dict(kind="custom" if nested else "custom_own_levels"), rss
 
 
 def rss_valid(rss):
@@ -1047,41 +1054,60 @@ def _with_alarm(seconds, fn, *a, **k):
 
 
 def gen_dehb_sched_spec(rng):
-    return dict(mode=rng.choice(["min", "max"]), grace_period=rng.choice([1, 1, 2]), max_resource=rng.choice([4, 9, 9, 16, 27]),
-                reduction_factor=rng.choice([2, 3, 3, 4]), brackets=rng.choice([None, None, 1, 2]),
-                pfail=rng.choice([0.0, 0.1, 0.3, 0.5]), workers=rng.choice([1, 2, 4]), steps=rng.randint(40, 160),
-                seed=rng.randrange(1 << 30), pause_resume=rng.choice([True, False]),
-                # a finite space runs out of new configs: suggest answers None and the job is reported as failed
-                finite_space=rng.choice([None, None, None, 6, 12, 24]))
+    sp = dict(mode=rng.choice(["min", "max"]), grace_period=rng.choice([1, 1, 2]), max_resource=rng.choice([4, 9, 9, 16, 27]),
+              reduction_factor=rng.choice([2, 3, 3, 4]), brackets=rng.choice([None, None, 1, 2]),
+              pfail=rng.choice([0.0, 0.0, 0.1, 0.3, 0.5]), workers=rng.choice([1, 2, 4]), steps=rng.randint(40, 160),
+              seed=rng.randrange(1 << 30), pause_resume=rng.choice([True, False]),
+              # a finite space runs out of new configs: suggest answers None and the job is reported as failed
+              finite_space=rng.choice([None, None, None, 6, 12, 24]))
+    if rng.random() < 0.35:
+        # DifferentialEvolutionHyperbandScheduler with custom rungs of the first bracket
+        depth = rng.randint(2, 4)
+        sizes = sorted(rng.sample(range(1, 8), depth), reverse=True)
+        levels = sorted(rng.sample(range(1, 20), depth))
+        sp["custom_first"] = [[sizes[i], levels[i]] for i in range(depth)]
+        sp["brackets"] = rng.choice([None, rng.randint(1, depth)])
+    return sp
 
 
 def run_dehb_sched(ctx, replay):
-    """The real GeometricDifferentialEvolutionHyperbandScheduler (dehb.py is not modelled): every suggest /
-    on_trial_result / on_trial_error under the protocol must return, whatever jobs fail; the bracket manager's
-    job/result log is checked by LogChecker (rung sizes, levels, offsets, no slot twice, new bracket only when no free slot)."""
+    """The real DEHB scheduler (dehb.py is modelled only as far as its bracket manager and the ids it reads).
+    (a) every suggest / on_trial_result / on_trial_error under the protocol returns, whatever jobs fail;
+    (b) the bracket manager's job/result log passes LogChecker, with the slot values replaced by what the HARNESS
+        reported for the winning trial, so that top_of_previous_rung must be a best-k set of the completed rung;
+    (c) on the public behaviour: the trials resumed (support_pause_resume) / continued as a new trial with the same
+        config to the next rung level of the FIRST bracket are a best-k set of the completed rung, failed last."""
     import random as _random
     from syne_tune.backend.trial_status import Trial
     from syne_tune.config_space import uniform, randint, finrange
     from syne_tune.optimizer.schedulers.synchronous.hyperband_impl import GeometricDifferentialEvolutionHyperbandScheduler
+    from syne_tune.optimizer.schedulers.synchronous.dehb import DifferentialEvolutionHyperbandScheduler
     if replay and replay.get("kind") == "dehb_sched":
         specs = [replay["spec"]]
     elif replay:
         return
     else:
-        specs = [gen_dehb_sched_spec(ctx.rng) for _ in range(ctx.n(40, 600))]
+        specs = [gen_dehb_sched_spec(ctx.rng) for _ in range(ctx.n(60, 800))]
     t0 = datetime.datetime(2020, 1, 1)
+    nan = float("nan")
     for sp in specs:
         rng = _random.Random(sp["seed"])
         kw = dict(metric="m", mode=sp["mode"], resource_attr="epoch", max_resource_attr="epochs",
-                  grace_period=sp["grace_period"], reduction_factor=sp["reduction_factor"],
                   random_seed=sp["seed"] % 1000, support_pause_resume=sp["pause_resume"])
-        if sp["brackets"] is not None:
-            kw["brackets"] = sp["brackets"]
         fs = sp.get("finite_space")
         space = {"x": uniform(0, 1), "y": uniform(0, 1)} if not fs else {
             "x": finrange(0.0, 2.0, max(2, fs // 3), cast_int=True), "y": randint(0, 2)}
         try:
-            sch = GeometricDifferentialEvolutionHyperbandScheduler(dict(space, epochs=sp["max_resource"]), **kw)
+            if sp.get("custom_first"):
+                first = [tuple(x) for x in sp["custom_first"]]
+                sch = DifferentialEvolutionHyperbandScheduler(dict(space, epochs=first[-1][1]), rungs_first_bracket=first,
+                                                              num_brackets_per_iteration=sp["brackets"], **kw)
+            else:
+                if sp["brackets"] is not None:
+                    kw["brackets"] = sp["brackets"]
+                sch = GeometricDifferentialEvolutionHyperbandScheduler(
+                    dict(space, epochs=sp["max_resource"]), grace_period=sp["grace_period"],
+                    reduction_factor=sp["reduction_factor"], **kw)
         except AssertionError:
             ctx.h("dehb_sched_constructor", "rejected")
             continue
@@ -1090,16 +1116,52 @@ def run_dehb_sched(ctx, replay):
         sch.bracket_manager = rec
         chk = LogChecker(rss, sp["mode"], dehb=True)
         running, trials, n, nfail, broken, nnone = {}, {}, 0, 0, None, 0
+        reported_last = {}            # trial -> the value the harness reported last (NaN: it made the trial fail)
+        b0, promoted = {}, {}         # first bracket: rung -> {trial: value} / rung -> trials continued from the rung below
+        fed = [0]
+        ntop = 0
+
+        def feed():
+            nonlocal ntop
+            while fed[0] < len(rec.log):
+                e = rec.log[fed[0]]
+                fed[0] += 1
+                if e[0] == "next":
+                    chk.on_next_job(e[1], e[2])
+                    continue
+                bid, s_, ret = e[1], e[2], e[3]
+                w = s_["trial_id"]
+                # the slot holds the WINNER of the selection step; its value is what the harness reported for it
+                chk.truth[(bid, s_["rung_index"], s_["slot_index"])] = nan if w is None else reported_last.get(w, s_["metric_val"])
+                before = chk.stats["rungs_completed"]
+                chk.on_result(bid, s_, ret)
+                sys_ = rss[bid % len(rss)]
+                if chk.stats["rungs_completed"] > before and s_["rung_index"] + 1 < len(sys_):
+                    try:
+                        top = [rec.top_of_previous_rung(bid, p) for p in range(sys_[s_["rung_index"] + 1][0])]
+                    except Exception as e_:
+                        chk.bad("top_of_previous_rung(bracket %d, pos < %d) raised %s: %s — the top list of the completed "
+                                "rung %d is shorter than the next rung" % (bid, sys_[s_["rung_index"] + 1][0],
+                                                                           type(e_).__name__, e_, s_["rung_index"]),
+                                "top_list_too_short")
+                        continue
+                    chk.check_top_list(bid, s_["rung_index"], [None if t_ is None else int(t_) for t_ in top])
+                    ntop += 1
+
         for _ in range(sp["steps"]):
             if len(running) < sp["workers"] and (not running or rng.random() < 0.6):
+                nlog = len(rec.log)
                 try:
                     sg = _with_alarm(20, sch.suggest, n)
                 except Exception as e:
                     broken = ("suggest", e)
                     break
+                nj = [e for e in rec.log[nlog:] if e[0] == "next"]
+                feed()
                 if sg is None:
                     nnone += 1
                     continue
+                bid, js = (nj[0][1], nj[0][2]) if len(nj) == 1 else (None, None)
                 if sg.spawn_new_trial_id:
                     t = n
                     n += 1
@@ -1107,30 +1169,74 @@ def run_dehb_sched(ctx, replay):
                     sch.on_trial_add(trials[t])
                 else:
                     t = int(sg.checkpoint_trial_id)
-                running[t] = int(sg.config["epochs"]) if sg.config is not None else None
+                running[t] = dict(ms=int(sg.config["epochs"]) if sg.config is not None else None, bid=bid,
+                                  rung=None if js is None else js["rung_index"])
+                if bid == 0 and js is not None and js["rung_index"] >= 1:
+                    # which trial of the rung below is continued here?
+                    k = js["rung_index"]
+                    if not sg.spawn_new_trial_id:
+                        src = t
+                    else:
+                        cfg = (sg.config.get("x"), sg.config.get("y"))
+                        src = next((u for u in b0.get(k - 1, {}) if (trials[u].config.get("x"), trials[u].config.get("y")) == cfg), None)
+                    promoted.setdefault(k, []).append(src)
             else:
                 t = rng.choice(sorted(running))
-                ms = running.pop(t)
+                info = running.pop(t)
+                ms = info["ms"]
                 try:
                     if rng.random() < sp["pfail"] or ms is None:
                         nfail += 1
+                        v = nan
+                        reported_last[t] = nan
                         _with_alarm(20, sch.on_trial_error, trials[t])
                     else:
-                        _with_alarm(20, sch.on_trial_result, trials[t], {"m": gen_metric(rng, "grid_fine"), "epoch": ms})
+                        v = gen_metric(rng, "grid_fine")
+                        reported_last[t] = v
+                        _with_alarm(20, sch.on_trial_result, trials[t], {"m": v, "epoch": ms})
                 except Exception as e:
                     broken = ("on_trial_result/on_trial_error", e)
                     break
-        for e in rec.log:
-            if e[0] == "next":
-                chk.on_next_job(e[1], e[2])
+                if info["bid"] == 0 and info["rung"] is not None:
+                    b0.setdefault(info["rung"], {})[t] = v
+                feed()
+        feed()
+        # (c) first bracket, public behaviour
+        sys0 = rss[0]
+        for k in sorted(promoted):
+            if len(promoted[k]) != sys0[k][0] or len(b0.get(k - 1, {})) != sys0[k - 1][0]:
+                continue                                   # rung not handed out completely yet
+            prev = b0[k - 1]
+            valid = {u: v for u, v in prev.items() if not isnan(v)}
+            prom = [u for u in promoted[k] if u is not None]
+            msg = None
+            if len(set(prom)) != len(prom) or any(u not in prev for u in prom):
+                msg = "trials %s continued to rung %d are not distinct trials of rung %d %s" % (prom, k, k - 1, sorted(prev))
+            elif any(isnan(prev[u]) for u in prom):
+                msg = "a failed trial of rung %d is continued to rung %d" % (k - 1, k)
+            elif len(prom) != min(sys0[k][0], len(valid)):
+                msg = "%d trials of rung %d continued to rung %d, which has %d slots (%d valid results)" % (
+                    len(prom), k - 1, k, sys0[k][0], len(valid))
             else:
-                chk.on_result(e[1], e[2], e[3])
-        ctx.count(("dehb_sched", sp), nontrivial=chk.stats["rungs_completed"] >= 1 and nfail >= 1)
+                for a_ in valid:
+                    if a_ in prom:
+                        continue
+                    worse = [u for u in prom if better(sp["mode"], valid[a_], valid[u])]
+                    if worse:
+                        msg = ("trial %s (metric %r) of rung %d was not continued to level %d, but trial %s with the worse "
+                               "metric %r (mode %s) was" % (a_, valid[a_], k - 1, sys0[k][1], worse[0], valid[worse[0]], sp["mode"]))
+                        break
+            if msg:
+                chk.bad("first bracket: " + msg, "promoted_not_best")
+        ctx.count(("dehb_sched", sp), nontrivial=chk.stats["rungs_completed"] >= 1 and (nfail >= 1 or len(promoted) >= 1))
+        ctx.h("dehb_sched_kind", "custom_rungs" if sp.get("custom_first") else "geometric")
         ctx.h("dehb_sched_brackets", sp["brackets"])
         ctx.h("dehb_sched_failures", min(nfail, 5))
         ctx.h("dehb_sched_suggest_none", min(nnone, 5))
         ctx.h("dehb_sched_space", "finite" if fs else "continuous")
         ctx.h("dehb_sched_rungs_completed", min(chk.stats["rungs_completed"], 6))
+        ctx.h("dehb_sched_first_bracket_rungs_checked", min(sum(1 for k in promoted if len(promoted[k]) == sys0[k][0]), 3))
+        ctx.h("dehb_sched_top_lists_checked", min(ntop, 6))
         case = dict(kind="dehb_sched", spec=sp)
         if broken is not None:
             call, e = broken
